@@ -182,6 +182,7 @@ func runCase(r *evid.Run, cs int64, c caseCfg) {
 		time.Sleep(2 * time.Millisecond)
 		if i == 999 {
 			_, dump := stuckWitness("none")
+			r.StopEarly()
 			r.Violation("c18:worker-alive-after-stop", "the queue worker goroutine is still present after Stop()", "queue", cs, map[string]any{"case": fmt.Sprintf("%+v", c), "goroutines": strings.Split(dump, "\n")})
 			return
 		}
